@@ -494,8 +494,8 @@ func runRoundScenario(seed uint64, size int, t *Trace) error {
 		}
 		t.Count("round:" + res)
 		t.Count(fmt.Sprintf("round.attempts:%d", len(acceptLog)))
-		t.Line("cl.round latest=%d now=%d choices=%s => %s lockfree=%d sigs=%v gk=%s id=%d servers=%s disk=[%s] resent=%s", lat, t0, strings.Join(choices, ";"),
-			res, lf, idOK, hx(after.GCAPubKey[:]), after.ShortID, canonClientServers(after.Servers), canonClientDisk(dir), strings.Join(resent, ","))
+		t.Line("cl.round latest=%d now=%d choices=%s => %s lockfree=%d sigs=%v gk=%s id=%d servers=%s disk=[%s] resent=%s primary=%s", lat, t0, strings.Join(choices, ";"),
+			res, lf, idOK, hx(after.GCAPubKey[:]), after.ShortID, canonClientServers(after.Servers), canonClientDisk(dir), strings.Join(resent, ","), hx(after.PrimaryServer[:]))
 		if after.GCAPubKey != curGCA.Pub {
 			curGCA = newGCA
 		}
@@ -552,8 +552,8 @@ func runRoundScenario(seed uint64, size int, t *Trace) error {
 				lf2 = 1
 			}
 			t.Count("round.overlap-end:" + res2)
-			t.Line("cl.round.end latest=%d now=%d choices=%s => %s lockfree=%d sigs=%v gk=%s id=%d servers=%s disk=[%s] resent=%s", lat1, t1, strings.Join(ch2, ";"),
-				res2, lf2, id2, hx(after2.GCAPubKey[:]), after2.ShortID, canonClientServers(after2.Servers), canonClientDisk(dir), strings.Join(resent2, ","))
+			t.Line("cl.round.end latest=%d now=%d choices=%s => %s lockfree=%d sigs=%v gk=%s id=%d servers=%s disk=[%s] resent=%s primary=%s", lat1, t1, strings.Join(ch2, ";"),
+				res2, lf2, id2, hx(after2.GCAPubKey[:]), after2.ShortID, canonClientServers(after2.Servers), canonClientDisk(dir), strings.Join(resent2, ","), hx(after2.PrimaryServer[:]))
 			if after2.GCAPubKey != curGCA.Pub {
 				curGCA = newGCA
 			}
